@@ -12,6 +12,7 @@ from __future__ import annotations
 
 import importlib
 import inspect
+import itertools
 import json
 import os
 import random
@@ -861,9 +862,17 @@ def stream_malformed(ctx: Ctx, w: World) -> Stream:
 def exhibited(w: World, ops: list[tuple], real: list[str]) -> tuple[bool, list[str]]:
 	"""(code-faithful reference explains the real outputs, deviations whose removal changes the outputs)"""
 	faithful = run_ref(w, ops, ALL_DEV)
-	if faithful != real:
-		return False, []
-	return True, [d for d in DEVIATIONS if run_ref(w, ops, ALL_DEV - {d}) != real]
+	if faithful == real:
+		ex = [d for d in DEVIATIONS if run_ref(w, ops, ALL_DEV - {d}) != real]
+		if ex:
+			return True, ex
+	# either no single deviation is necessary (two of them lead to the same observation by different routes), or the code
+	# no longer shows all known deviations (e.g. some were repaired): smallest subset that explains the outputs
+	for size in range(1, len(DEVIATIONS) + 1):
+		for sub in itertools.combinations(DEVIATIONS, size):
+			if run_ref(w, ops, frozenset(sub)) == real:
+				return True, list(sub)
+	return False, []
 
 
 def first_diff(a: list[str], b: list[str]) -> int:
@@ -881,8 +890,10 @@ def shrink_for(w: World, ops: list[tuple], key: str | None) -> list[tuple]:
 			return False
 		if key is None:
 			return run_ref(w, cand, ALL_DEV) != real
+		if run_ref(w, cand, IDEAL) == real:
+			return False
 		ok, ex = exhibited(w, cand, real)
-		return ok and key in ex and run_ref(w, cand, IDEAL) != real
+		return ok and key in ex
 	return common.shrink_list(ops, fails, max_steps=600)
 
 
@@ -913,8 +924,6 @@ def search_reference(ctx: Ctx, w: World) -> SearchResult:
 		explained, ex = exhibited(w, ops, real)
 		if not explained:
 			keys = ['unexplained-divergence']
-		elif not ex:
-			keys = ['combined-deviation']
 		else:
 			keys = ex
 		for key in keys:
@@ -925,7 +934,7 @@ def search_reference(ctx: Ctx, w: World) -> SearchResult:
 			if name.startswith('corpus:'):
 				small = ops
 			else:
-				small = shrink_for(w, ops[:at + 1] if key == 'unexplained-divergence' else ops, None if key in ('unexplained-divergence', 'combined-deviation') else key)
+				small = shrink_for(w, ops[:at + 1] if key == 'unexplained-divergence' else ops, None if key == 'unexplained-divergence' else key)
 			sreal = run_real(w, small)
 			sideal = run_ref(w, small, IDEAL)
 			j = first_diff(sreal, sideal)
@@ -943,16 +952,22 @@ def search_reference(ctx: Ctx, w: World) -> SearchResult:
 
 
 STATEMENTS = {
-	'refine': 'forward simulation: for every op sequence and every further op, abs(step σ op) = specStep (abs σ) op and both give the same output',
-	'run_refines': 'whole runs: the concrete model and the Spec produce the same outputs and related final states for every op sequence',
-	'singleton': 'two resolves of one symbol on one container with no bind/rebind/unbind of it in between return the same instance, whatever else happens in between',
-	'rebind_fresh': 'after rebind, any later resolve of the symbol returns an instance created after the rebind, by the new factory',
-	'combine_right_statement / _counterexample / _partial': 'in combine(a, b) every symbol of b has b\'s entry (binding and instance), every other symbol a\'s: FALSE on the pinned code (two witnesses), proved when a holds no instance/materialised binding for symbols b binds without instance / only defines',
-	'combine_frame': 'an op addressed to one container leaves the abstract state of every other container unchanged (operands of combine keep behaving as before)',
-	'lazy_materialise': 'resolving a lazy definition in a clone leaves the original\'s definition unresolved; the original then creates its own, different instance',
-	'unknown': 'resolve of a symbol that cannot be resolved raises ValueError and changes nothing',
-	'invoke_fill_statement / _alias_ / _second_ / _extra_counterexample / _partial': 'invoke = fill the leading resolvable annotated parameters of the factory itself and validate the rest: FALSE in three ways on the pinned code; proved for histories whose factories agree on annotations per qualified name, for calls that are valid or first-and-not-surplus',
-	'fuel_sufficient': 'if bindings respect a rank (every annotated parameter of a factory bound to s ranks below s), resolution never exhausts fuel > rank: no RecursionError',
+	'refine': 'forward simulation: from every reachable state, every op changes the abstract state exactly as specStep prescribes (abs (step σ op) = specStep (abs σ) op) and gives the same output',
+	'run_refines': 'whole runs: the concrete dictionaries and the Spec produce the same outputs and abs-related final states for every op sequence',
+	'singleton': 'after resolve(c, r) returned o, every later resolve of that symbol (any spelling Gen / Gen[A]) on c returns the same o, whatever happens in between on any container, unless the symbol is bound/rebound/unbound on c',
+	'rebind_fresh': 'whatever is resolved for a symbol after a successful rebind (until its next bind/rebind/unbind) was created after the rebind and by the new factory',
+	'combine_right_statement': '(def) in combine(a, b) every symbol holds b\'s entry (binding and instance) if b can resolve it, else a\'s',
+	'combine_right_counterexample': 'FALSE on the pinned code (DI): b binds without instance, a has an instance -> result pairs b\'s factory with a\'s instance',
+	'combine_right_lazy_counterexample': 'FALSE on the pinned code (LazyDI): b only defines the symbol, a has materialised it -> a\'s binding and instance survive',
+	'combine_right_partial': 'the right operand wins whenever a holds no instance for symbols b binds without instance and no materialised binding for symbols b only defines (e.g. disjoint symbol sets as in entrypoints.py)',
+	'combine_frame': 'an op leaves every container it is not addressed to exactly as it was (operands of combine/_clone keep behaving as before, and vice versa)',
+	'lazy_materialise': 'a definition resolved in a clone is materialised there only; the original still holds the unresolved definition and later creates its own, younger instance',
+	'unknown': 'when can_resolve answers False, resolve raises ValueError and changes nothing',
+	'invoke_fill_statement': '(def) invoke curries exactly the leading resolvable annotated parameters of the factory itself, raises ValueError unless the remaining arguments match the remaining annotated parameters one to one, else calls the factory',
+	'invoke_alias_counterexample': 'FALSE: annotation cache keyed by qualified name -> second closure of one def curried with the first one\'s annotations',
+	'invoke_second_counterexample': 'FALSE: signature check only on the first call per qualified name -> later mismatched call returns an object',
+	'invoke_extra_counterexample': 'FALSE: surplus remaining arguments raise IndexError instead of ValueError',
+	'invoke_fill_partial': 'for histories whose factories agree on annotations per qualified name: the code equals the law on every call for which the law does not demand ValueError, and (ValueError included) on first calls unless the code raises IndexError',
 }
 
 
